@@ -213,6 +213,10 @@ mod inner {
     /// [`Collect`]: crate::collect::Collect
     /// [cache-docs]: crate::callsite#rebuilding-cached-interest
     pub fn rebuild_interest_cache() {
+        #[cfg(tokio_rs_tracing_verif)]
+        let mut dispatchers =
+            crate::__verif::write(&REGISTRY.dispatchers, "callsite:rebuild:write").unwrap();
+        #[cfg(not(tokio_rs_tracing_verif))]
         let mut dispatchers = REGISTRY.dispatchers.write().unwrap();
         let callsites = &REGISTRY.callsites;
         rebuild_interest(callsites, &mut dispatchers);
@@ -229,12 +233,21 @@ mod inner {
     /// [`Callsite`]: crate::callsite::Callsite
     /// [reg-docs]: crate::callsite#registering-callsites
     pub fn register(registration: &'static Registration) {
+        #[cfg(tokio_rs_tracing_verif)]
+        let dispatchers =
+            crate::__verif::read(&REGISTRY.dispatchers, "callsite:register:read").unwrap();
+        #[cfg(not(tokio_rs_tracing_verif))]
         let dispatchers = REGISTRY.dispatchers.read().unwrap();
         rebuild_callsite_interest(&dispatchers, registration.callsite);
         REGISTRY.callsites.push(registration);
     }
 
     pub(crate) fn register_dispatch(dispatch: &Dispatch) {
+        #[cfg(tokio_rs_tracing_verif)]
+        let mut dispatchers =
+            crate::__verif::write(&REGISTRY.dispatchers, "callsite:register_dispatch:write")
+                .unwrap();
+        #[cfg(not(tokio_rs_tracing_verif))]
         let mut dispatchers = REGISTRY.dispatchers.write().unwrap();
         let callsites = &REGISTRY.callsites;
 
